@@ -70,7 +70,7 @@ PROPS = {
     },
     "C03": {
         "runs": [{"mode": "native-dev", "bin": "c03"}],
-        "expect_monitors": ["clamp_contract", "clamping_and_checked_conversion", "integer_component_clamp_contract"],
+        "expect_monitors": ["clamp_contract", "clamping_and_checked_conversion", "integer_component_clamp_contract", "clamp_contract_lms_cam16"],
         "assumptions": ASSUME_COMMON + ["documented bounds typed from the min_*/max_* accessor docs (refmodel::space::Space::clamp_bounds); for HWB only the relations (within bounds, identity, idempotence) are required, how an excess w+b is distributed is unspecified"],
     },
     "C01": {
